@@ -17,6 +17,43 @@ pub mod beta {
     include!(concat!(env!("OUT_DIR"), "/pkg.sub.Beta.rs"));
 }
 
+pub mod gamma {
+    include!(concat!(env!("OUT_DIR"), "/Gamma.rs"));
+}
+
+/// A message without fields.
+#[derive(Debug, Clone, Serialize, Deserialize, PartialEq)]
+pub struct Empty {}
+
+struct GammaImpl(Log);
+#[anemo::async_trait]
+impl gamma::gamma_server::Gamma for GammaImpl {
+    async fn unit_bin(&self, _r: Request<()>) -> Result<Response<()>, Status> {
+        self.0.lock().unwrap().push("Gamma.UnitBin".into());
+        Ok(Response::new(()).with_header("done", "1"))
+    }
+    async fn unit_json(&self, _r: Request<()>) -> Result<Response<()>, Status> {
+        self.0.lock().unwrap().push("Gamma.UnitJson".into());
+        Ok(Response::new(()).with_header("done", "1"))
+    }
+    async fn empty_bin(&self, _r: Request<Empty>) -> Result<Response<Empty>, Status> {
+        self.0.lock().unwrap().push("Gamma.EmptyBin".into());
+        Ok(Response::new(Empty {}).with_header("done", "1"))
+    }
+    async fn empty_json(&self, _r: Request<Empty>) -> Result<Response<Empty>, Status> {
+        self.0.lock().unwrap().push("Gamma.EmptyJson".into());
+        Ok(Response::new(Empty {}).with_header("done", "1"))
+    }
+    async fn vec_bin(&self, r: Request<Vec<u8>>) -> Result<Response<Vec<u8>>, Status> {
+        self.0.lock().unwrap().push("Gamma.VecBin".into());
+        Ok(Response::new(r.into_body()).with_header("done", "1"))
+    }
+    async fn vec_json(&self, r: Request<Vec<u8>>) -> Result<Response<Vec<u8>>, Status> {
+        self.0.lock().unwrap().push("Gamma.VecJson".into());
+        Ok(Response::new(r.into_body()).with_header("done", "1"))
+    }
+}
+
 /// The one message type; the request tells the handler how to behave.
 #[derive(Debug, Clone, Serialize, Deserialize, PartialEq)]
 pub struct Msg {
@@ -128,7 +165,8 @@ fn typed_case(t: &[&str]) -> String {
     let log: Log = Arc::new(Mutex::new(Vec::new()));
     let router = Router::new()
         .add_rpc_service(alpha::alpha_server::AlphaServer::new(AlphaImpl(log.clone())))
-        .add_rpc_service(beta::beta_server::BetaServer::new(BetaImpl(log.clone())));
+        .add_rpc_service(beta::beta_server::BetaServer::new(BetaImpl(log.clone())))
+        .add_rpc_service(gamma::gamma_server::GammaServer::new(GammaImpl(log.clone())));
     let rt = tokio::runtime::Builder::new_current_thread().build().unwrap();
     let mut outs = Vec::new();
     for call in &t[1..] {
@@ -139,6 +177,26 @@ fn typed_case(t: &[&str]) -> String {
                 let req = Request::new(Bytes::from(unhex(f[2]))).with_route(route);
                 let resp = router.clone().oneshot(req).await.unwrap();
                 return format!("status:{}", resp.status().to_u16());
+            }
+            if f[0] == "tiny" {
+                // tiny:<method>[:<hex of a Vec<u8> message>]: messages that encode to (almost) nothing
+                let mut g = gamma::gamma_client::GammaClient::new(router.clone());
+                fn show<T: std::fmt::Debug>(r: Result<Response<T>, Status>) -> String {
+                    match r {
+                        Ok(resp) => format!("ok:{:?}:{}:{}", resp.body(), resp.status().to_u16(), fmt_headers(resp.headers())).replace(' ', ""),
+                        Err(st) => format!("err:{}", st.status().to_u16()),
+                    }
+                }
+                let v = f.get(2).map(|h| unhex(h)).unwrap_or_default();
+                return match f[1] {
+                    "UnitBin" => show(g.unit_bin(()).await),
+                    "UnitJson" => show(g.unit_json(()).await),
+                    "EmptyBin" => show(g.empty_bin(Empty {}).await),
+                    "EmptyJson" => show(g.empty_json(Empty {}).await),
+                    "VecBin" => show(g.vec_bin(v).await),
+                    "VecJson" => show(g.vec_json(v).await),
+                    other => panic!("unknown tiny method {other}"),
+                };
             }
             let msg = Msg {
                 tag: f[1].parse().unwrap(),
